@@ -79,7 +79,7 @@ def main() -> None:
         for c in by_model_inst.get(mi, []):
             rec = dict(base_rt)
             rec.update(
-                {"x": c["x"], "xmlok": c["xmlok"], "sdk": sdk.ok, "built": False, "jo": "none", "j": sc.DUMMY_JDOC, "rtj": {"o": "none", "v": sc.VNONE},
+                {"x": c["x"], "xmlok": c["xmlok"], "accepted": sdk.accepted, "sdk": sdk.ok, "built": False, "jo": "none", "j": sc.DUMMY_JDOC, "rtj": {"o": "none", "v": sc.VNONE},
                  "rtjt": {"o": "none", "v": sc.VNONE}, "deepj": False, "deepjt": False, "xo": "none", "xparsed": False, "xml": sc.DUMMY_XNODE,
                  "rtx": {"o": "none", "v": sc.VNONE}, "deepx": False, "detail": ""}
             )
@@ -145,7 +145,7 @@ def main() -> None:
         # mutated documents
         for c in by_model_mut.get(mi, []):
             rec = {"mi": mi, "pa": entry["pa"], "pb": entry["pb"], "mid": model.id, "fmt": c["fmt"], "kind": c["kind"], "at": c["at"], "doc": c["doc"],
-                   "sdk": sdk.ok, "outcome": {"o": "none", "v": sc.VNONE}, "detail": "", "text": "", "after_root": False}
+                   "accepted": sdk.accepted, "sdk": sdk.ok, "outcome": {"o": "none", "v": sc.VNONE}, "detail": "", "text": "", "after_root": False}
             mut_obs.append(rec)
             if not sdk.ok:
                 continue
@@ -166,7 +166,7 @@ def main() -> None:
         if sdk.ok and first_xml is not None:
             for tm in text_mutants(first_xml):
                 rec = {"mi": mi, "pa": entry["pa"], "pb": entry["pb"], "mid": model.id, "fmt": "xmltext", "kind": "Malformed", "at": tm["at"], "doc": sc.DUMMY_JDOC,
-                       "sdk": True, "outcome": {"o": "none", "v": sc.VNONE}, "detail": "", "after_root": tm["after_root"]}
+                       "accepted": True, "sdk": True, "outcome": {"o": "none", "v": sc.VNONE}, "detail": "", "after_root": tm["after_root"]}
                 rec["outcome"], _, d = sc.outcome_of(sdk.from_str_fn(root), tm["text"], sdk, sdk.xmlization.DeserializationException)
                 rec["detail"] = d[:400]
                 rec["text"] = tm["text"][:300]
